@@ -6,8 +6,13 @@
     C <kind h|s> <max> <volatile 0|1> <flapping 0|1> [<topology>]   start of a case (fresh, pending object)
     S <state> <stype> <attempt> <lastHard> <prevHard> <exec> | <obs>  start state restored as from a state file
     R <state> <execStart> <now> <via> | <obs> [; <reachable> <acknowledged> <flapping> <inDowntime>]
-    P … / A … / D … / F …                                            environment changes (parent result,
-                                                                     acknowledgement, downtime, flags): the property
+    X <stateA> <stateB> <execStart> <now> | <accA> <accB> <state> <stype> <attempt> <lastHard> <hardA> <hardB>
+                                                                     two results processed concurrently (last of a case)
+    Y <stateA> <stateB> <execStart> <now> | <obs of A> ;; <obs of B> [; <env>]
+                                                                     A is held after its new-check-result signal while B
+                                                                     is processed; then A reports its state change
+    P … / A … / D … / F … / U …                                      environment changes (parent result,
+                                                                     acknowledgement, downtime, flags, authority): the property
                                                                      gives them no influence, the model ignores them
   <obs> = <accepted> <state> <stype> <attempt> <lastHard> <ev> <prevHard> <vaState> <vaType> <vaAttempt>
           <apiState> <apiLastState> <apiLastHard>
@@ -52,9 +57,23 @@ structure DSt where
   viaApi : Nat := 0
   viaExtCmd : Nat := 0
   hardEvAfterHard : Nat := 0      -- hard events with a known previous hard state (previous_hard_state checked)
+  closed : Bool := false          -- after a concurrent pair: what is read outside the object lock is not defined
+  skipped : Nat := 0
+  pairs : Nat := 0                -- concurrent pairs (X)
+  pairsHard : Nat := 0            -- … that ended in a hard problem state
+  overlap : Nat := 0              -- accepted results whose execution started before the previous result's execution ended
+  lastEnd : Int := 0
+  pausedCases : Nat := 0
+  pausedEvents : Nat := 0         -- events reported by an object without authority
+  paused : Bool := false
+  overtaken : Nat := 0            -- Y operations
+  overtakenDiff : Nat := 0        -- … in which the late state-type read changes the first result's event (model)
 
 def showObs (o : Obs) : String :=
   s!"{showBool o.accepted},{o.state.toNat},{o.stype.toNat},{o.attempt},{o.lastHard.toNat},{o.ev.toNat},{o.prevHard},{o.vaState},{o.vaType},{o.vaAttempt},{o.apiState},{o.apiLastState},{o.apiLastHard}"
+
+def showPair (o : PairObs) : String :=
+  s!"{showBool o.accA},{showBool o.accB},{o.state.toNat},{o.stype.toNat},{o.attempt},{o.lastHard.toNat},{o.hardA},{o.hardB}"
 
 def parseObs (ws : List String) : Option Obs :=
   match ws with
@@ -84,16 +103,20 @@ def stOfObs (o : Obs) (old : St) (lastExec : Option Int) : St :=
   { state := o.state, stype := o.stype, attempt := o.attempt, lastHard := o.lastHard,
     hist := o.lastHard.toNat * 100 + o.prevHard, lastState := old.state, lastExec := lastExec }
 
-def handle (d : DSt) (n : Nat) (line : String) : IO DSt := do
+/-- `overtaken`: the line is the first half of a `Y` operation; `evOverride`: the event the model computes for it
+    (its state-type read happens after the second half was processed). -/
+def handleCore (overtaken : Bool) (evOverride : Option Ev) (d : DSt) (n : Nat) (line : String) : IO DSt := do
   let ws := words line
   match ws with
   | [] => return d
-  | "C" :: k :: mx :: vol :: _ =>
+  | "C" :: k :: mx :: vol :: more =>
     match (if k == "h" then some Kind.host else if k == "s" then some Kind.service else none),
           parseNat? mx, parseBool? vol with
     | some k, some mx, some vol =>
+      let paused := more.drop 2 == ["1"]
       return { d with cfg := { kind := k, max := mx, volatile := vol }, st := pending, sp := specInit, h := histInit,
-                      caseNo := d.caseNo + 1, caseFailed := false, caseHadHard := false }
+                      caseNo := d.caseNo + 1, caseFailed := false, caseHadHard := false, closed := false, lastEnd := 0,
+                      paused := paused, pausedCases := d.pausedCases + (if paused then 1 else 0) }
     | _, _, _ => IO.println s!"BADLINE line={n}"; return d
   | "S" :: rest =>
     let (pre, post) := splitBar rest
@@ -123,14 +146,21 @@ def handle (d : DSt) (n : Nat) (line : String) : IO DSt := do
       | _, _, _, _, _, _ => IO.println s!"BADLINE line={n}"; return d
     | _ => IO.println s!"BADLINE line={n}"; return d
   | "R" :: rest =>
+    if d.closed then return { d with skipped := d.skipped + 1 }
     let (pre, post) := splitBar rest
     let (obsW, envW) := splitSemi post
-    match pre, parseObs obsW with
+    -- an optional fifth field (execution end) is the property's business only through the order of the starts
+    match pre.take 4, parseObs obsW with
     | [st, es, nw, via], some io =>
       match (parseNat? st) >>= SState.ofNat?, parseInt? es, parseInt? nw with
       | some rs, some es, some nw =>
         let r : Res := { state := rs, execStart := es, now := nw }
-        let p := step d.cfg d.st r
+        let p0 := step d.cfg d.st r
+        -- an overtaken result: the code as written re-reads the state type late (`evOverride`, F-C01a); an
+        -- implementation that reports the sequential event (repaired, or signals in another order) is right too
+        let p : St × Ev × Bool := match evOverride with
+          | some e => if p0.2.2 && io.ev != p0.2.1 then (p0.1, e, true) else p0
+          | none => p0
         let mo := obsOf d.cfg p
         let mut d := { d with steps := d.steps + 1 }
         if via == "2" then d := { d with viaApi := d.viaApi + 1 }
@@ -141,7 +171,10 @@ def handle (d : DSt) (n : Nat) (line : String) : IO DSt := do
         -- the specification on the implementation's own observation
         if io.accepted && io.ev == .hard && d.h.hardAt.isSome then
           d := { d with hardEvAfterHard := d.hardEvAfterHard + 1 }
-        let (cl, sp', h') := fullStep d.cfg d.sp d.h r io
+        -- the separate clause name only where the late re-read of the state type (the model's event) explains the
+        -- implementation's event; any other wrong event of an overtaken result is an ordinary event failure
+        let (cl, sp', h') := if overtaken && evOverride == some io.ev then overtakenStep d.cfg d.sp d.h r io
+                             else fullStep d.cfg d.sp d.h r io
         match cl with
         | some cl =>
           if !d.caseFailed then
@@ -151,6 +184,11 @@ def handle (d : DSt) (n : Nat) (line : String) : IO DSt := do
         d := { d with sp := sp', h := h' }
         if !io.accepted then
           d := { d with dropped := d.dropped + 1 }
+        if d.paused && io.ev != .none then d := { d with pausedEvents := d.pausedEvents + 1 }
+        if io.accepted then
+          let ee := ((pre.drop 4).head? >>= parseInt?).getD es
+          if es < d.lastEnd then d := { d with overlap := d.overlap + 1 }
+          d := { d with lastEnd := ee }
         -- histogram
         d := match io.ev with
           | .none => { d with evNone := d.evNone + 1 }
@@ -178,13 +216,68 @@ def handle (d : DSt) (n : Nat) (line : String) : IO DSt := do
         return { d with st := st' }
       | _, _, _ => IO.println s!"BADLINE line={n}"; return d
     | _, _ => IO.println s!"BADLINE line={n}"; return d
+  | "X" :: rest =>
+    if d.closed then return { d with skipped := d.skipped + 1 }
+    let (pre, post) := splitBar rest
+    match pre, post with
+    | [sa, sb, es, nw], [aa, ab, fs, ft, fa, fl, ha, hb] =>
+      match (parseNat? sa) >>= SState.ofNat?, (parseNat? sb) >>= SState.ofNat?, parseInt? es, parseInt? nw,
+            parseBool? aa, parseBool? ab, (parseNat? fs) >>= SState.ofNat?, (parseNat? ft) >>= SType.ofNat?,
+            parseNat? fa, (parseNat? fl) >>= SState.ofNat?, parseNat? ha, parseNat? hb with
+      | some sa, some sb, some es, some nw, some aa, some ab, some fs, some ft, some fa, some fl, some ha, some hb =>
+        let po : PairObs := { accA := aa, accB := ab, state := fs, stype := ft, attempt := fa, lastHard := fl,
+                              hardA := ha, hardB := hb }
+        -- the model: A, then B (the order the harness forces on an implementation that serialises the calls)
+        let p1 := step d.cfg d.st { state := sa, execStart := es, now := nw }
+        let p2 := step d.cfg p1.1 { state := sb, execStart := es, now := nw }
+        let flag (p : St × Ev × Bool) : Nat := if p.2.2 && p.2.1 == .hard then 1 else 0
+        let mo : PairObs := { accA := p1.2.2, accB := p2.2.2, state := p2.1.state, stype := p2.1.stype,
+                              attempt := p2.1.attempt, lastHard := p2.1.lastHard, hardA := flag p1, hardB := flag p2 }
+        let mut d := { d with steps := d.steps + 2, pairs := d.pairs + 1, closed := true }
+        if mo != po then
+          IO.println s!"MISMATCH line={n} case={d.caseNo} impl={showPair po} model={showPair mo}"
+          d := { d with mismatches := d.mismatches + 1 }
+        if po.stype == .hard && !isOK d.cfg.kind po.state then d := { d with pairsHard := d.pairsHard + 1 }
+        match pairStep d.cfg d.sp d.h.lastExec sa sb es po with
+        | some cl =>
+          if !d.caseFailed then
+            IO.println s!"SPECFAIL line={n} case={d.caseNo} clause={cl.name}"
+          d := { d with specfails := d.specfails + 1, caseFailed := true }
+        | none => pure ()
+        return d
+      | _, _, _, _, _, _, _, _, _, _, _, _ => IO.println s!"BADLINE line={n}"; return d
+    | _, _ => IO.println s!"BADLINE line={n}"; return d
   | op :: _ =>
-    if op == "P" || op == "A" || op == "D" || op == "F" then
+    if op == "P" || op == "A" || op == "D" || op == "F" || op == "U" then
       return { d with envOps := d.envOps + 1 }
     else
       IO.println s!"BADLINE line={n}"; return d
 
+def handle (d : DSt) (n : Nat) (line : String) : IO DSt := do
+  match words line with
+  | "Y" :: rest =>
+    if d.closed then return { d with skipped := d.skipped + 1 }
+    let (pre, post) := splitBar rest
+    let obsA := post.takeWhile (· ≠ ";;")
+    let restB := (post.dropWhile (· ≠ ";;")).drop 1
+    match pre with
+    | [sa, sb, es, nw] =>
+      match (parseNat? sa) >>= SState.ofNat?, (parseNat? sb) >>= SState.ofNat?, parseInt? es, parseInt? nw with
+      | some a, some b, some e, some w =>
+        let ra : Res := { state := a, execStart := e, now := w }
+        let rb : Res := { state := b, execStart := e, now := w }
+        let p1 := step d.cfg d.st ra
+        let p2 := step d.cfg p1.1 rb
+        let evA := if p1.2.2 then eventRead d.cfg d.st a p1.1.stype p2.1.stype else Ev.none
+        let d := { d with overtaken := d.overtaken + 1,
+                          overtakenDiff := d.overtakenDiff + (if evA != p1.2.1 then 1 else 0) }
+        let d ← handleCore true (some evA) d n (" ".intercalate (["R", sa, es, nw, "1", "|"] ++ obsA))
+        handleCore false none d n (" ".intercalate (["R", sb, es, nw, "0", "|"] ++ restB))
+      | _, _, _, _ => IO.println s!"BADLINE line={n}"; return d
+    | _ => IO.println s!"BADLINE line={n}"; return d
+  | _ => handleCore false none d n line
+
 def main : IO Unit := do
   let stdin ← IO.getStdin
   let d ← foldLines stdin handle ({} : DSt)
-  IO.println s!"STATS cases={d.caseNo} steps={d.steps} dropped={d.dropped} ev_none={d.evNone} ev_soft={d.evSoft} ev_hard={d.evHard} soft={d.softN} hard={d.hardN} nontrivial={d.nontrivial} starts={d.starts} starts_known={d.startsKnown} envops={d.envOps} unreachable={d.unreach} unreachable_soft={d.unreachSoft} acked={d.acked} flapping={d.flapping} in_downtime={d.inDowntime} via_api={d.viaApi} via_extcmd={d.viaExtCmd} prev_hard_checked={d.hardEvAfterHard} mismatches={d.mismatches} specfails={d.specfails}"
+  IO.println s!"STATS cases={d.caseNo} steps={d.steps} dropped={d.dropped} ev_none={d.evNone} ev_soft={d.evSoft} ev_hard={d.evHard} soft={d.softN} hard={d.hardN} nontrivial={d.nontrivial} starts={d.starts} starts_known={d.startsKnown} envops={d.envOps} unreachable={d.unreach} unreachable_soft={d.unreachSoft} acked={d.acked} flapping={d.flapping} in_downtime={d.inDowntime} via_api={d.viaApi} via_extcmd={d.viaExtCmd} prev_hard_checked={d.hardEvAfterHard} pairs={d.pairs} pairs_hard={d.pairsHard} overlap={d.overlap} paused_cases={d.pausedCases} paused_events={d.pausedEvents} overtaken={d.overtaken} overtaken_diff={d.overtakenDiff} skipped={d.skipped} mismatches={d.mismatches} specfails={d.specfails}"
